@@ -102,7 +102,11 @@ impl Quantile {
             if index < len - 1 {
                 // `q[index]` and `q[index + 1]` are equally valid estimates,
                 // by convention we take their average.
-                return 0.5 * heights[index] + 0.5 * heights[index + 1];
+                // Halving a subnormal number rounds, so keep the average between
+                // the two observations.
+                return (0.5 * heights[index] + 0.5 * heights[index + 1])
+                    .max(heights[index])
+                    .min(heights[index + 1]);
             }
         }
         index = index.max(0.);
